@@ -131,7 +131,9 @@ func (m *Model) clone() *Model {
 	return n
 }
 
-func mirKey(ip string, mirror uint32) string { return ip + "/" + strconv.FormatUint(uint64(mirror), 10) }
+func mirKey(ip string, mirror uint32) string {
+	return ip + "/" + strconv.FormatUint(uint64(mirror), 10)
+}
 
 // splitAddr: "ip:port" with a non-empty ip and a decimal port 0..65535
 func splitAddr(addr string) (string, uint16, bool) {
